@@ -144,14 +144,67 @@ theorem dropping_inner_shape_cast_changes_meaning :
     have h2 : venv0.vres "l" = some (.loc 0) := by decide
     simp [VAst.eval, h1, h2, ρ123, castShapeR, castShape, castVal, mapOpt]
 
-/-- a cast to a *vector of a literal type* (what the type checker builds for `boolvec + 1` or `intvec * 1.5`) cannot be
-exported: `generate_type` reaches `generate_scalar_type(IntLiteral / FloatLiteral)` and panics — the drop-the-cast rule
-only looks at scalar targets.  Known finding (corpus/C01.txt: `int3 f1(bool3 b) { return b + 1; }`). -/
+/-- a cast to a *vector of a literal type* cannot be exported: `generate_type` reaches
+`generate_scalar_type(IntLiteral / FloatLiteral)` and panics — the drop-the-cast rule only looks at scalar targets.
+The type checker no longer builds such a cast: not for a binary operation (`boolvec + 1`, `intvec * 1.5`: fix 40c6233) and
+not for the arms of `?:` (`c ? intvec : 1.5`: fix c05bffa) — see `vector_op_literal_in_concrete_type`; `VIr.typeOf` rejects
+it.  The statement is kept as a fact about the (unchanged) exporter: such a tree must never reach it. -/
 theorem literal_vector_cast_panics (cx : Ctx) (e : VExpr) (a : VAExpr) (n : Nat) (hg : genV cx e = .ok a) :
     (∃ m, genV cx (.cast (.vec .lit n) e) = .error (.panic m)) ∧ (∃ m, genV cx (.cast (.vec .flit n) e) = .error (.panic m)) := by
   constructor <;>
     exact ⟨"generate_scalar_type: literal type should not be required on output",
       by simp [genV, hg, vtypeName, typeName, scalarKey, scalarTypeName]⟩
+
+/-- what the type checker builds since fix 40c6233 for `b + 1` with `b : bool3` — `Add(Cast(int3, b), Cast(int3, 1))`,
+the operation done in the concrete type the literal receives (was: `Cast(IntLiteral3, b)`, which panicked the exporter) -/
+def eBoolVecPlusLit : VExpr :=
+  .op .Add (.cons (.cast (.vec .int 3) (.vvar 0)) (.cons (.cast (.vec .int 3) (.sc (.lit (.intLit 1)))) .nil))
+
+/-- the same for `v * 1.5` with `v : int3`: `Multiply(Cast(float3, v), Cast(float3, 1.5))` -/
+def eIntVecTimesFlit : VExpr :=
+  .op .Multiply (.cons (.cast (.vec .float 3) (.vvar 0))
+    (.cons (.cast (.vec .float 3) (.sc (.lit (.floatLit 0x3ff8000000000000#64)))) .nil))
+
+/-- the same for `c ? b : 7` with `b : bool3` since fix c05bffa: `c ? Cast(int3, b) : Cast(int3, 7)` -/
+def eTernVecLit : VExpr :=
+  .tern (.sc (.var 0)) (.cast (.vec .int 3) (.vvar 1)) (.cast (.vec .int 3) (.sc (.lit (.intLit 7))))
+
+def venvOf (t : VTy) : VAst.VEnv where
+  base := env0
+  vres := env0.res
+  vvty := fun _ => t
+
+theorem vagreeOf (t : VTy) : VAgree cx0 (venvOf t) (fun _ => t) where
+  base := agree0
+  vres := agree0.res
+  vvty := rfl
+
+/-- **a vector operation or conditional with a literal operand is exported and keeps its meaning** (the positive statement
+that replaces the known findings `b + 1` / `v * 1.5` / `c ? b : 7` after fixes 40c6233 and c05bffa): the trees the type
+checker now builds are accepted by `VIr.typeOf` (result `int3` / `float3`), satisfy the literal side condition, are
+exported — `(int3)b + (int3)1`, `(float3)v * (float3)1.5`, `c ? (int3)b : (int3)7` — and the emitted expression has the
+IR's type and evaluates to the IR's value and store for every value of the vector, every store and every interpretation
+of the primitives (instances of `gen_sem_vec_expr_plain`). -/
+theorem vector_op_literal_in_concrete_type (W : World) :
+    genV cx0 eBoolVecPlusLit = .ok (.bin .Add (.cast "int3" (.ident "l")) (.cast "int3" (.sc (.lit (.intUntyped 1))))) ∧
+    (∀ a, genV cx0 eBoolVecPlusLit = .ok a →
+      VAst.typeOf W.sig (venvOf (.vec .bool 3)) a = some (.vec .int 3) ∧
+      ∀ ρ σ, VAst.eval W (venvOf (.vec .bool 3)) ρ a σ = VIr.eval W ρ eBoolVecPlusLit σ) ∧
+    (∃ a, genV cx0 eIntVecTimesFlit = .ok a) ∧
+    (∀ a, genV cx0 eIntVecTimesFlit = .ok a →
+      VAst.typeOf W.sig (venvOf (.vec .int 3)) a = some (.vec .float 3) ∧
+      ∀ ρ σ, VAst.eval W (venvOf (.vec .int 3)) ρ a σ = VIr.eval W ρ eIntVecTimesFlit σ) ∧
+    genV cx0 eTernVecLit =
+      .ok (.tern (.sc (.ident "l")) (.cast "int3" (.ident "ll")) (.cast "int3" (.sc (.lit (.intUntyped 7))))) ∧
+    (∀ a, genV cx0 eTernVecLit = .ok a →
+      VAst.typeOf W.sig (venvOf (.vec .bool 3)) a = some (.vec .int 3) ∧
+      ∀ ρ σ, VAst.eval W (venvOf (.vec .bool 3)) ρ a σ = VIr.eval W ρ eTernVecLit σ) :=
+  ⟨rfl,
+   fun a h => gen_sem_vec_expr_plain (vagreeOf _) eBoolVecPlusLit a (.vec .int 3) h rfl rfl rfl,
+   ⟨_, rfl⟩,
+   fun a h => gen_sem_vec_expr_plain (vagreeOf _) eIntVecTimesFlit a (.vec .float 3) h rfl rfl rfl,
+   rfl,
+   fun a h => gen_sem_vec_expr_plain (vagreeOf _) eTernVecLit a (.vec .int 3) h rfl rfl rfl⟩
 
 /-- the constants outside the evaluated subset (64-bit integers, 16- and 64-bit floats) go — unconditionally, first matching
 arm — to the literal of the *same* kind carrying the *same* payload (`.plain k` = `Literal::k(v)`), and `half` / `double`
